@@ -203,6 +203,30 @@ def run_trace(cell):
                 except Exception as ex:
                     lte.update(tv=-1, tret="raised", tout=type(ex).__name__, tmsg=str(ex)[:160])
             evs.append(lte)
+        # call history: this object has answered many calls by now; a matching asked for right after one at a velocity 3e-6 away
+        # must be the matching a NEW Hydrodynamics object gives for that velocity (deflagration and detonation side)
+        if evs and "vJ" in evs[0]:
+            cbv = math.sqrt(hy.template.cb2)
+            hist = {"e": "Hist", "out": "ok", "n": 0, "dTicks": 0}
+            try:
+                hy2 = WallGo.Hydrodynamics(th, cell.get("tmax", 10.0), cell.get("tmin", 0.01), cell.get("rtol", 1e-6), cell.get("atol", 1e-10))
+                for v0 in (0.5 * (max(hy.vMin, 0.02) + min(cbv, hy.vJ)), 0.5 * (hy.vJ + 1.0)):
+                    if not (hy.vMin < v0 < 0.995):
+                        continue
+                    try:
+                        hy.findMatching(v0)
+                        a = hy.findMatching(v0 + 3e-6)
+                        b = hy2.findMatching(v0 + 3e-6)
+                    except Exception:          # the matchings themselves are judged by the Match events
+                        continue
+                    if any(x is None for x in tuple(a) + tuple(b)) or not all(np.isfinite(float(x)) for x in tuple(a) + tuple(b)):
+                        continue
+                    hist["n"] += 1
+                    hist["dTicks"] = max(hist["dTicks"], max(abs(vt(float(a[i])) - vt(float(b[i]))) for i in (0, 1)),
+                                         max(abs(tt(float(a[i]), Tn) - tt(float(b[i]), Tn)) for i in (2, 3)))
+            except Exception as ex:
+                hist.update(out=type(ex).__name__, msg=str(ex)[:160])
+            evs.append(hist)
     except Exception as ex:
         evs.append({"e": "Setup", "out": type(ex).__name__, "msg": str(ex)[:200]})
     # description of the observation, used ONLY to match entries of known_findings.json (the verdict is TLC's)
